@@ -33,6 +33,8 @@ struct FindConflicts<'a, 'ctx> {
 impl<'a> FindConflicts<'a, '_> {
     pub fn find(&mut self, on_type: Option<&'a str>, selection_set: &'a Positioned<SelectionSet>) {
         for selection in &selection_set.node.items {
+            #[cfg(async_graphql_verif)]
+            crate::__verif::bump(crate::__verif::OVERLAP_SEL);
             match &selection.node {
                 Selection::Field(field) => {
                     let output_name = field
@@ -80,6 +82,8 @@ impl<'a> FindConflicts<'a, '_> {
         field: &'a Positioned<Field>,
     ) {
         if let Some(prev_field) = self.outputs.get(&(on_type, name)) {
+            #[cfg(async_graphql_verif)]
+            crate::__verif::bump(crate::__verif::OVERLAP_CMP);
             if prev_field.node.name.node != field.node.name.node {
                 self.ctx.report_error(
                     vec![prev_field.pos, field.pos],
